@@ -129,8 +129,12 @@ fn main() {
             std::fs::create_dir_all(outdir).unwrap();
             let mut cases = vec![];
             // minimised failures found earlier run first
-            let corpus = format!("{}/../../corpus/{}.txt", outdir, args[1]);
-            if let Ok(txt) = std::fs::read_to_string(&corpus).or_else(|_| std::fs::read_to_string(format!("/verif/corpus/{}.txt", args[1]))) {
+            // outdir is <root>/work/<ID>/run (or .../wide): the corpus lives in <root>/corpus
+            let corpus = format!("{}/../../../corpus/{}.txt", outdir, args[1]);
+            if let Ok(txt) = std::fs::read_to_string(&corpus)
+                .or_else(|_| std::fs::read_to_string(format!("{}/../../corpus/{}.txt", outdir, args[1])))
+                .or_else(|_| std::fs::read_to_string(format!("/verif/corpus/{}.txt", args[1])))
+            {
                 for l in txt.lines() {
                     if !l.is_empty() && !l.starts_with('#') {
                         cases.push(l.to_string());
